@@ -4,7 +4,7 @@ ROOT=${1:-/tmp/mutants}
 WT=/tmp/wt/rscan
 git -C /repo worktree remove --force $WT 2>/dev/null
 git -C /repo worktree add -q --detach $WT HEAD
-for d in $(ls -d $ROOT/ref_r*/R-* 2>/dev/null | sort); do
+for d in $(ls -d $ROOT/ref_${RB:-r}*/R-* 2>/dev/null | sort); do
   [ -f $d/patch.diff ] || continue
   id=$(basename $(dirname $d))/$(basename $d)
   (cd $WT && git checkout -q . && git clean -fdq && git apply $d/patch.diff) || { echo "$id APPLY-FAILED"; continue; }
